@@ -58,7 +58,7 @@ func init() {
 		},
 		Run:            c03Run,
 		Replay:         c03Replay,
-		QuickBudget:    50 * time.Second,
+		QuickBudget:    240 * time.Second,
 		ThoroughBudget: 9 * time.Minute,
 	})
 }
@@ -271,6 +271,8 @@ func c03SingleSels() []c03Sel {
 			return c3f(c3as(c3eq(c3c(ca), c3i(1)), "is1"), c3as(relm.IsNull{E: c3c(ca)}, "isn"))
 		}},
 		{"*,aASa2", false, func(o, ca, cb string) []relm.Field { return c3f("*", c3as(c3c(ca), "a2")) }},
+		{"a,aASk", false, func(o, ca, cb string) []relm.Field { return c3f(ca, c3as(c3c(ca), "k")) }},
+		{"b,bASk,a", false, func(o, ca, cb string) []relm.Field { return c3f(cb, c3as(c3c(cb), "k"), ca) }},
 	}
 }
 
@@ -478,6 +480,8 @@ func c03CatPair(thorough bool) *c03Cat {
 			{"r.*", c3f("t2.*")},
 			{"b+1ASx,c", c3f(c3as(c3plus(c3c("b"), c3i(1)), "x"), "c")},
 			{"a-cols", c3f(c3as(c3c(a1), "a1"), c3as(c3c(a2), "a2"))},
+			{"dup-then-later", c3f(c3as(c3c(a1), "k1"), c3as(c3c(a1), "k2"), "t1.b", "t2.c")},
+			{"later-dup", c3f("t1.b", c3as(c3c("t2.c"), "c1"), c3as(c3c("t2.c"), "c2"))},
 		}
 		for wi, w := range wheres {
 			for si, s := range sels {
